@@ -267,6 +267,6 @@ theorem C03_guards_present :
        ("paint_server.rs", "convert_pattern"), ("marker.rs", "convert"), ("marker.rs", "resolve"),
        ("converter.rs", "enter_def"), ("converter.rs", "enter_def"), ("svgtree/mod.rs", "next"),
        ("svgtree/mod.rs", "next"), ("svgtree/parse.rs", "parse_svg_use_element"),
-       ("svgtree/parse.rs", "parse_svg_use_element")] := by decide +kernel
+       ("svgtree/parse.rs", "parse_svg_use_element"), ("svgtree/parse.rs", "parse_svg_use_element")] := by decide +kernel
 
 end Resvg.Props.C03
